@@ -81,6 +81,15 @@ def dense_inputs(rng, big):
     out.append(("giant-string", "fn f()\n{\n\tvar s = \"" + "x" * (60 * n) + "\";\n}\n"))
     out.append(("giant-comment", "// " + "x" * (60 * n) + "\nfn f()\n{\n}\n"))
     out.append(("many-strings", "fn f()\n{\n\tvar s = " + "\"a\" " * n + ";\n}\n"))
+    # depth limits: at, just past, at the width of the counter, and far beyond
+    for n in (125, 126, 127, 128, 129, 254, 255, 256, 257, 300, 1000, 70000 if big else 3000):
+        out.append(("amp-depth-expr-%d" % n, "fn f()\n{\n\tx = " + "&" * n + "a;\n}\n"))
+        out.append(("amp-depth-stmt-%d" % n, "fn f()\n{\n\t" + "&" * n + "a = 1;\n}\n"))
+        out.append(("amp-depth-lengthof-%d" % n, "fn f()\n{\n\tx = |" + "&" * n + "a|;\n}\n"))
+        out.append(("amp-depth-type-%d" % n, "fn f(x: " + "&" * n + "i32)\n{\n}\n"))
+        out.append(("steps-depth-member-%d" % n, "fn f()\n{\n\tx = a" + ".b" * n + ";\n}\n"))
+        out.append(("steps-depth-elem-%d" % n, "fn f()\n{\n\ta" + "[0]" * n + " = 1;\n}\n"))
+        out.append(("strings-%d" % n, "fn f()\n{\n\tx = " + "\"s\" " * n + ";\n}\n"))
     out.append(("amp-depth", "fn f()\n{\n\tx = " + "&" * 126 + "a;\n\ty = " + "&" * 127 + "a;\n\tz = " + "&" * 128 + "a;\n}\n"))
     out.append(("steps-depth", "fn f()\n{\n\tx = a" + ".b" * 126 + ";\n\ty = a" + "[0]" * 127 + ";\n\tz = a" + ".b" * 128 + ";\n}\n"))
     for d in (50, 300):
